@@ -100,6 +100,24 @@ CLAIMS = {
         "a shifted axis including the sub-sample grids.",
    note="trusted: pyvc engine (heap model); (ts+o)-o = ts over the reals; overwrite_times assumes distinct positions hold distinct frames; consolidate is covered by the bounded native run only",
    technique="contract-based deductive verification (loop invariants over a symbolic heap, exceptional postcondition, modular call contract); bounded native replay"),
+ 'C04': dict(cat='proof', ref='DESIGN.md 2/C04',
+   text="Writer: format_header_line returns exactly 80 characters with the key in columns 0-7 for every valid card form (string-length model); "
+        "_make_header writes one 80-byte card per entry + END + zero padding to 512 iff DIRECTIO != 0 and unaligned, for every card count "
+        "(all residues mod 32) and DIRECTIO form, and advances PKTIDX; record() is verified with inductive invariants over the files loop and the "
+        "blocks loop (symbolic block count and blocks-per-file): every file holds whole header+BLOCSIZE blocks, blocks-per-file at a time, PKTIDX "
+        "advances per block, pipeline-owned fields equal the configuration for any incoming dictionary, user cards are kept. Readers: "
+        "read_header (loop invariant over a symbolic-length header), get_blocks_in_file for DIRECTIO 0/1/absent, get_total_blocks for every "
+        "directory listing order, from_data's header size - against the writer's layout. blimpy GuppiRaw agreement is bounded (native).",
+   note="trusted: pyvc engine; string-length and file-counter models; collect_data_block/_make_header used through contracts inside record(); one antenna in the record contract; blimpy agreement bounded",
+   technique="contract-based deductive verification (loop invariants with ghost counters, modular call contracts, symbolic file layout); bounded native replay with an independent reader"),
+ 'C07': dict(cat='other', ref='DESIGN.md 2/C07',
+   text="Deductive: recorded coarse channel c is centred at fch1+(start_chan+c)*chan_bw from the header record() writes (C04), "
+        "get_raw_params(start_chan) reproduces fch1/bandwidth/orientation/counts, the quick-look reducer skips exactly the first header "
+        "(DIRECTIO 0/1/absent), decodes x/y and applies the requested FFT length and integration factor, output shape of get_pfb_waterfall. "
+        "NOT decidable here: that a tone peaks within one fine bin of f (a DFT theorem) and the per-column value of the fine channelisation "
+        "(undecided within budget) - both carried by a bounded native run of the real pipeline.",
+   note="trusted: pyvc engine; header formulas proved in C04; tone localisation and fine-channel values bounded only (level 'other' for that reason)",
+   technique="contract-based deductive verification for the header/reader clauses; bounded native pipeline runs for tone localisation"),
 }
 NA_REASON = "not yet built in this session (see DESIGN.md build order)"
 
